@@ -182,6 +182,62 @@ func greedy(b *harness.B, c *chaingen.Chain, led *chainmon.Ledger, cs consensus.
 			}
 		}
 	}
+	// the same parent listed twice in one transaction, its value paid out twice (every lock kind the wallet knows,
+	// including conditions that need no signature)
+	for i, t := range orig.Transactions {
+		if len(t.SiacoinInputs) > 0 && len(t.StorageProofs) == 0 {
+			if e, ok := c.S.SCEs[t.SiacoinInputs[0].ParentID]; ok && !e.SiacoinOutput.Value.IsZero() {
+				blk := chaingen.CloneBlock(orig)
+				tt := &blk.Transactions[i]
+				tt.SiacoinInputs = append(tt.SiacoinInputs, tt.SiacoinInputs[0])
+				tt.SiacoinOutputs = append(tt.SiacoinOutputs, types.SiacoinOutput{Value: e.SiacoinOutput.Value, Address: types.VoidAddress})
+				blk.Transactions = blk.Transactions[:i+1]
+				if blk.V2 != nil {
+					blk.V2.Transactions = nil
+				}
+				c.SignV1(cs, tt, nil)
+				kind := "signed"
+				if t.SiacoinInputs[0].UnlockConditions.SignaturesRequired == 0 {
+					kind = "no-signature-required"
+				}
+				try("v1-parent-listed-twice-value-paid-twice/"+kind, blk)
+			}
+		}
+	}
+	for i, t := range orig.V2Transactions() {
+		if len(t.SiacoinInputs) > 0 && !t.SiacoinInputs[0].Parent.SiacoinOutput.Value.IsZero() {
+			blk := chaingen.CloneBlock(orig)
+			tt := &blk.V2.Transactions[i]
+			tt.SiacoinInputs = append(tt.SiacoinInputs, chaingen.CloneV2(t).SiacoinInputs[0])
+			tt.SiacoinOutputs = append(tt.SiacoinOutputs, types.SiacoinOutput{Value: t.SiacoinInputs[0].Parent.SiacoinOutput.Value, Address: types.VoidAddress})
+			blk.V2.Transactions = blk.V2.Transactions[:i+1]
+			c.SignV2(cs, tt, nil)
+			try("v2-parent-listed-twice-value-paid-twice", blk)
+			// an in-block output spent once more under the ID of an attestation the block is made to carry
+			// (from the ephemeral-output height on: below it in-block parents are outside the claim)
+			if in := t.SiacoinInputs[0]; in.Parent.StateElement.LeafIndex == types.UnassignedLeafIndex && cs.Index.Height+1 >= c.Net.N.HardforkV2.EphemeralOutputHeight {
+				b2 := chaingen.CloneBlock(orig)
+				key := c.W.Keys[0]
+				att := types.V2Transaction{}
+				for k := 0; k < 4; k++ {
+					att.Attestations = append(att.Attestations, types.Attestation{PublicKey: key.PublicKey(), Key: fmt.Sprint("k", k), Value: []byte{byte(k)}})
+				}
+				c.SignV2(cs, &att, nil)
+				b2.V2.Transactions = append([]types.V2Transaction{att}, b2.V2.Transactions[:i+1]...)
+				aid := att.ID()
+				if l := c.W.Locks[in.Parent.SiacoinOutput.Address]; l != nil {
+					for k := 0; k < 4; k++ {
+						alias := in.Parent.Copy()
+						alias.ID = types.SiacoinOutputID(att.AttestationID(aid, k))
+						b3 := chaingen.CloneBlock(b2)
+						b3.V2.Transactions = append(b3.V2.Transactions, c.NewV2Spend(cs, alias, l, types.VoidAddress))
+						try("v2-in-block-output-spent-again-under-an-attestation-id", b3)
+					}
+				}
+			}
+			break
+		}
+	}
 	// siafund outputs whose 64-bit sum wraps around to the input sum (two extra outputs of 2^63 each)
 	for i, t := range orig.V2Transactions() {
 		if len(t.SiafundInputs) > 0 && len(t.SiafundOutputs) > 0 {
